@@ -1118,16 +1118,16 @@ class SessionTransaction(_StateChange, TransactionalContext):
         self.session._expunge_states(to_expunge, to_transient=True)
 
         for s, (oldkey, newkey) in self._key_switches.items():
-            # we probably can do this conditionally based on
-            # if we expunged or not, but safe_discard does that anyway
+            # an object that was added in this transaction is transient
+            # again; it has no identity key to restore
+            if s in to_expunge:
+                continue
+
             self.session.identity_map.safe_discard(s)
 
-            # restore the old key
+            # restore the old key and the object
             s.key = oldkey
-
-            # now restore the object, but only if we didn't expunge
-            if s not in to_expunge:
-                self.session.identity_map.replace(s)
+            self.session.identity_map.replace(s)
 
         for s in set(self._deleted).union(self.session._deleted):
             self.session._update_impl(s, revert_deletion=True)
